@@ -142,6 +142,8 @@ def cover_unichan(c, name, threads, l1_checks, n=4, maxs=1, max_paths=None,
             s2["explore"] = {"mode": "replay", "schedules": [x["run"]["choices"]]}
             c.violation("%s (UniChan) violated by the real code (scenario %s, run %d)" % (x["inv"], x["run"]["scn"], x["run"]["run"]),
                         {"scenario": s2, "run": x["run"], "events": extract_run(trace, x["run"]), "module": "Trace_UniChan", "consts": {k: tla_val(q) for k, q in tc.items()}, "invariant": x["inv"]})
+        # every replayed execution is judged by the L1 oracle below, whether or not the L2 specification could follow it
+        c.tool_errors[:] = [e for e in c.tool_errors if not str(e).startswith("UNVALIDATED[%s]" % nm)]
         l1c = uni_consts(n, len(threads), "uni_move_atomic", l1_checks, relax=kf)
         v1 = validate_trace(trace, runs, "Trace_AbsUni", l1c, "%s_%s_l1" % (c.prop, nm), parallel=8)
         c.tv_states += v1["states"]
@@ -194,6 +196,8 @@ def judge_multichan(c, l1_checks, n, nthreads):
             s2["explore"] = {"mode": "replay", "schedules": [x["run"]["choices"]]}
             c.violation("%s (MultiChan) violated by the real code (scenario %s, run %d)" % (x["inv"], x["run"]["scn"], x["run"]["run"]),
                         {"scenario": s2, "run": x["run"], "events": extract_run(trace, x["run"]), "module": "Trace_MultiChan", "consts": {}, "invariant": x["inv"]})
+        # every execution is judged by the L1 oracle below, whether or not the L2 specification could follow it
+        c.tool_errors[:] = [e for e in c.tool_errors if not str(e).startswith("UNVALIDATED[%s]" % nm)]
         l1c = multi_consts(n, nthreads, l1_checks)
         v1 = validate_trace(trace, runs, "Trace_AbsMulti", l1c, "%s_%s_l1" % (c.prop, nm), parallel=8)
         c.tv_states += v1["states"]
